@@ -16,7 +16,9 @@ from .models.sqlmodel import SqlModelCodeGenerator
 try:
     import ruamel.yaml as yaml
 
-    yaml_load = yaml.YAML(typ='safe', pure=True).load
+    def yaml_load(stream):
+        # New loader for each document: YAML instance keeps state (i.e. %YAML directive) between loads and is not thread-safe
+        return yaml.YAML(typ='safe', pure=True).load(stream)
 except ImportError:
     try:
         import yaml
